@@ -38,7 +38,8 @@
 (*                gConn     calls Network().Connectedness    -> WConnectedness *)
 (*                boConn    connected: connector.Backoff     -> WBackoffConnected *)
 (*                chkBo     Connect: HasBackoff              -> WHasBackoff *)
-(*                gDial     Connect: host.Connect            -> WDial      *)
+(*                gDial     Connect: host.Connect is called  -> WDial      *)
+(*                gDialRet  Connect: host.Connect returns    -> WDialReturn *)
 (*                boDial    Connect: Backoff after the dial  -> WBackoffDial *)
 (*                add       set.Add, critical section        -> WAdd       *)
 (*                wake      set.Add, hand-off loop           -> WWake      *)
@@ -95,6 +96,7 @@ CONSTANTS
   MaxFail,      \* bound on failing dials
   MaxCalls,     \* bound on Peers(ctx) calls
   MaxApi,       \* bound on direct Add/Remove calls (DirectAPI)
+  WithGC,       \* BOOLEAN: the connector's GC loop runs (its period is a minute: the replay cannot trigger it)
   AtomicPeers, SignedWant, Serialized, DirectAPI
 
 None  == "-"
@@ -110,7 +112,7 @@ state == <<set, cl, rem, loop, cancelled, seen, wk, dl, conn, evq, view, net, pr
 Free == [pc |-> "free", p |-> None, ok |-> FALSE, api |-> FALSE]
 At(pc, p, ok, api) == [pc |-> pc, p |-> p, ok |-> ok, api |-> api]
 
-WorkerPcs == {"free", "spawned", "chkSize", "gConn", "boConn", "chkBo", "gDial", "boDial",
+WorkerPcs == {"free", "spawned", "chkSize", "gConn", "boConn", "chkBo", "gDial", "gDialRet", "boDial",
               "gLock", "add", "wake", "gCb", "gProt", "fin"}
 InternalW == {"spawned", "chkSize", "boConn", "chkBo", "boDial", "add", "wake", "fin"}
 DlPcs     == {"recv", "contains", "gUnprot", "bo", "rm", "gCb"}
@@ -277,15 +279,22 @@ WHasBackoff(w) ==
   /\ WAct("WHasBackoff", w)
   /\ UNCHANGED <<set, cl, rem, loop, cancelled, seen, dl, conn, evq, view, net, prot, mu, bud>>
 
-\* host.Connect: the environment decides the outcome
+\* host.Connect is called: the environment decides the outcome; a successful dial connects the peer
 WDial(w, ok) ==
   /\ wk[w].pc = "gDial"
   /\ ok \/ bud.fails < MaxFail
   /\ conn' = IF ok THEN [conn EXCEPT ![wk[w].p] = TRUE] ELSE conn
-  /\ wk' = [wk EXCEPT ![w] = [@ EXCEPT !.pc = "boDial", !.ok = ok]]
+  /\ wk' = [wk EXCEPT ![w] = [@ EXCEPT !.pc = "gDialRet", !.ok = ok]]
   /\ IF ok THEN bud' = bud ELSE Spend("fails")
   /\ act' = [a |-> "WDial", w |-> w, p |-> wk[w].p, ok |-> ok]
   /\ UNCHANGED <<set, cl, rem, loop, cancelled, seen, dl, evq, view, net, prot, mu>>
+
+\* host.Connect returns (the connection may already be gone again: EnvDrop in between)
+WDialReturn(w) ==
+  /\ wk[w].pc = "gDialRet"
+  /\ Step(w, "boDial")
+  /\ WAct("WDialReturn", w)
+  /\ UNCHANGED <<set, cl, rem, loop, cancelled, seen, dl, conn, evq, view, net, prot, mu, bud>>
 
 \* Connect records the attempt whatever its outcome (the context is never cancelled here: Stop is not modelled)
 WBackoffDial(w) ==
@@ -429,7 +438,7 @@ Tick ==
 
 \* one iteration of backoffConnector.GC: elapsed records are deleted
 GC ==
-  /\ \E p \in Peers : rem[p] = 0
+  /\ WithGC /\ \E p \in Peers : rem[p] = 0
   /\ rem' = [p \in Peers |-> IF rem[p] = 0 THEN NoRec ELSE rem[p]]
   /\ act' = [a |-> "GC"]
   /\ UNCHANGED <<set, cl, loop, cancelled, seen, wk, dl, conn, evq, view, net, prot, mu, bud>>
@@ -456,6 +465,7 @@ ApiRemove(p) ==
 WorkerNext(w) ==
   \/ WStart(w) \/ WSize(w) \/ WConnectedness(w) \/ WBackoffConnected(w) \/ WHasBackoff(w)
   \/ \E ok \in BOOLEAN : WDial(w, ok)
+  \/ WDialReturn(w)
   \/ WBackoffDial(w) \/ WLock(w) \/ WAdd(w) \/ WWake(w) \/ WCallback(w) \/ WProtect(w) \/ WFin(w)
 
 DlNext == DRecv \/ DContains \/ DUnprotect \/ DBackoff \/ DRemove \/ DCallback
@@ -482,9 +492,12 @@ LiveSpec == Spec /\ Fair
 -----------------------------------------------------------------------------
 (* The schedules the replay harness can force: an internal step is taken at once. *)
 BusyW == {w \in Workers : wk[w].pc \in InternalW}
+WorkerActs == {"WStart", "WSize", "WConnectedness", "WBackoffConnected", "WHasBackoff", "WDial", "WDialReturn",
+               "WBackoffDial", "WLock", "WAdd", "WWake", "WCallback", "WProtect", "WFin"}
+DlActs == {"DRecv", "DContains", "DUnprotect", "DBackoff", "DRemove", "DCallback"}
 CoarseSchedule ==
-  /\ BusyW # {} => \E w \in BusyW : wk'[w] # wk[w]
-  /\ dl.pc \in InternalD => dl' # dl
+  /\ BusyW # {} => act'.a \in WorkerActs /\ act'.w \in BusyW
+  /\ dl.pc \in InternalD => act'.a \in DlActs
 
 \* all goroutines are at a gate or idle (the replay compares the real state here)
 Stable == BusyW = {} /\ dl.pc \notin InternalD
@@ -525,7 +538,7 @@ ViewBookkeeping == Quiescent /\ ~DirectAPI => \A p \in Peers : net[p] = (IF p \i
 
 \* A dial is started only for a peer that is not in back-off.
 DialRespectsBackoff ==
-  [][\A w \in Workers : (wk[w].pc = "gDial" /\ wk'[w].pc = "boDial") => ~HasBackoff(wk[w].p)]_vars
+  [][\A w \in Workers : (wk[w].pc = "gDial" /\ wk'[w].pc = "gDialRet") => ~HasBackoff(wk[w].p)]_vars
 \* what the connector guarantees by itself: the decision to dial was taken while no back-off was active,
 \* and every contact leaves an active back-off behind
 ContactLeavesBackoff ==
